@@ -252,7 +252,7 @@ def run(ctx):
     # --- floats pinned by bit pattern
     for fmt in "FD":
         S, W = P.sort_obj(fmt), P.WIDTH[fmt]
-        pool = P.boundary_bits(fmt) + [P.rand_bits(rng, fmt) for _ in range(ctx.pick(20, 200))]
+        pool = P.boundary_bits(fmt) + [P.rand_bits(rng, fmt) for _ in range(ctx.pick(20, 400))]
         if not ctx.thorough():
             special = [b for b in pool if ((b >> (P.FMT[fmt][1] - 1)) & ((1 << P.FMT[fmt][0]) - 1)) in (0, (1 << P.FMT[fmt][0]) - 1)]
             pool = special + rng.sample(pool, 50)
@@ -280,7 +280,7 @@ def run(ctx):
     # --- strings pinned
     spool = [t for t in F.strings_upto(F.ALPHABET, 2) if all(cc <= F.Z3_MAX_CHAR for cc in t)]
     okc = [cc for cc in F.CODEC_ALPHABET if cc <= F.Z3_MAX_CHAR and not 0xD800 <= cc <= 0xDFFF]
-    spool += [tuple(rng.choice(okc) for _ in range(rng.randrange(1, 9))) for _ in range(ctx.pick(100, 500))]
+    spool += [tuple(rng.choice(okc) for _ in range(rng.randrange(1, 9))) for _ in range(ctx.pick(100, 1000))]
     spool += [F.cps("\\u{48}"), F.cps("\x00z"), (92, 117), F.cps("\\u{5c}u{48}"), (0x2FFFF, 0, 0xFF, 0x100)]
     if not ctx.thorough():
         spool = rng.sample(spool, 220) + spool[-5:]
@@ -303,7 +303,7 @@ def run(ctx):
                 {"kind": "pinned", "sort": "str", "q": "eval", "value": list(t), "tag": tag})
     ctx.cov['t_str'] = round(ctx.elapsed(), 1)
     # --- random constraint sets
-    for k in range(ctx.pick(60, 400)):
+    for k in range(ctx.pick(60, 1000)):
         kind = rng.choice(["bv", "bv", "fp", "str"])
         try:
             if kind == "bv":
